@@ -40,6 +40,15 @@ def move_nodes(parent: Element, nodes: List[Element], before: Optional[Element] 
         parent.insert(i, node)
 
 
+def swap_nodes(parent: Element, node1: Element, node2: Element):
+    """
+    Exchange the positions of *node1* and *node2* in *parent*.
+    """
+    children = list(parent)
+    index1, index2 = children.index(node1), children.index(node2)
+    parent[index1], parent[index2] = node2, node1
+
+
 def append_node(parent, node):
     """
     Append *node* to *parent*.
